@@ -29,7 +29,8 @@ def run(cx):
     for r, t in (("R13a", "column description: whatever the writer emits, the reader parses back into the same slots"),
                  ("R13b", "same slots at every ReprColumn construction site; writer covers all constructor attributes; same list separator"),
                  ("R13c", "table format: sections and limits written by _get_fmt_str are read back by _PPTableParsedFmt"),
-                 ("R13d", "an empty / separators-only format changes nothing")):
+                 ("R13d", "an empty / separators-only format changes nothing"),
+                 ("R13e", "the 'lines were skipped' flag describes only the last rendering of *this* format object")):
         cx.rule(r, t)
     writer = cx.func(REL, "ReprColumn.to_fmt_str", "R13a")
     reader = cx.func(REL, "_ColumnsParsedFmt._parse_col_fmt", "R13a")
@@ -44,6 +45,7 @@ def run(cx):
     _slots(cx, repo, rc_init, writer)
     _table(cx, repo, t_writer, t_reader_init, t_split, t_lines)
     _empty_format(cx, repo)
+    _skipped_flag(cx, repo)
 
 
 # ------------------------------------------------------------------------------------------ R13a
@@ -315,3 +317,33 @@ def _empty_format(cx, repo):
     ok = ok and len(r) == 1 and isinstance(r[0].value, ast.Call) and [norm(a) for a in r[0].value.args[1:]] == ["limit_flines", "limit_llines"] and \
         "parsed_fmt.cols_parsed_fmt" in norm(r[0].value.args[0])
     cx.ob("R13c", mk, ok, "the constructor path applies the same parsed sections" if ok else "PPTableFormat.make does not pass (columns section, first, last)")
+
+
+# ------------------------------------------------------------------------------------------ R13e
+def _skipped_flag(cx, repo):
+    """any_lines_skipped decides whether the limits section is serialised.  It is valid only for the limits of the object it
+    is stored on and for its last rendering: it may be set to a computed value only by the line generator, and every other
+    writer (constructor, clone, re-format) must leave / make it None ('unknown': limits are serialised)."""
+    gen = cx.func(REL, "_PPTableImpl.gen_ch_lines", "R13e")
+    n = 0
+    for m in repo.modules.values():
+        for st in ast.walk(m.tree):
+            if not isinstance(st, ast.Assign):
+                continue
+            for t in st.targets:
+                if isinstance(t, ast.Attribute) and t.attr == "any_lines_skipped":
+                    n += 1
+                    f = enclosing_func(st)
+                    if f is gen:
+                        ok = norm(st.value) in ("n_skipped > 0", "bool(n_skipped)", "n_skipped != 0")
+                        cx.ob("R13e", st, ok, "set from the number of records actually skipped in this rendering" if ok else f"flag computed as {norm(st.value)}")
+                    else:
+                        ok = const(st.value) and st.value.value is None
+                        cx.ob("R13e", st, ok, "elsewhere the flag is (re)set to 'unknown'" if ok else
+                              f"`{norm(st)}` in {getattr(f, '_qual', '?')}: a flag describing another rendering / other limits is carried over; "
+                              f"after a re-format the serialised fmt can silently drop the record limits")
+    cx.at_least("R13e", "writers of any_lines_skipped", n, 2)
+    # a change of the limits goes through a fresh (cloned) format object, whose flag is None
+    sf = cx.func(REL, "_PPTableImpl.set_fmt", "R13e")
+    ok = any(norm(s) == "new_fmt_obj = self._ppt_fmt.clone()" for s in sf.body)
+    cx.ob("R13e", sf, ok, "re-formatting works on a clone (flag unknown until the next rendering)" if ok else "re-formatting mutates the live format object")
